@@ -45,8 +45,9 @@ def string_program(s, raw, form):
         return 's = %s\nprint "<" + s + ">"\nprint s.len()\n' % lit
     if form == 1:
         return 'xs = [%s, "|"]\nprint xs\nm = map[str, int]\nm[%s] = 1\nprint m\n' % (lit, lit)
-    # assert message / comparison position
-    return 's = %s\nassert s == %s\nprint s + s\nprint "end"\n' % (lit, lit)
+    # assert message / comparison position, plus a function and a closure so that call targets (file#function) are built
+    return ('s = %s\nassert s == %s\nprint s + s\nf = fn(x: str) -> str {\n\treturn x + s\n}\nprint f("a")\n'
+            'ys: [int...] = [1, 2]\nprint ys.map(fn(q: int) -> int {\n\treturn q + 1\n})\nprint "end"\n') % (lit, lit)
 
 
 def all_strings(maxlen):
